@@ -99,9 +99,26 @@ def r3_conversions(rep, facts):
         return False
 
     def converts_each(b, meth):
+        """the conversion is called in a loop over the elements, on every iteration (not under a condition)"""
+        from .core import children
+
+        def cond_depth(node, target, depth):
+            if node is target:
+                return depth
+            k = node.get('k') if isinstance(node, dict) else None
+            d2 = depth
+            if k == 'if' or (k == 'match' and 'ForLoopDesugar' not in (node.get('src') or '') and 'TryDesugar' not in (node.get('src') or '')):
+                d2 = depth + 1
+            for c in children(node):
+                r = cond_depth(c, target, d2)
+                if r is not None:
+                    return r
+            return None
         for n in walk(b['body']):
-            if n.get('k') == 'loop' and any(x.get('k') == 'mcall' and x.get('name') == meth for x in walk(n)):
-                return True
+            if n.get('k') == 'loop':
+                for x in walk(n):
+                    if x.get('k') == 'mcall' and x.get('name') == meth:
+                        return cond_depth(n, x, 0) == 0
         return False
     for d, field, ctor, each in (('toml_edit::table::Table::into_inline_table', 'items', 'with_pairs', 'make_value'),
                                  ('toml_edit::inline_table::InlineTable::into_table', 'items', 'with_pairs', None),
@@ -111,7 +128,7 @@ def r3_conversions(rep, facts):
         mv = moves_field(b, field, ctor or '')
         rep.check(R, d + '|moves-storage', mv, f'`{field}` moved wholesale', f'`{d}` does not move `{field}` wholesale into the new container (entries could be lost or re-ordered)', facts.loc(b))
         if each:
-            rep.check(R, d + '|converts-each', converts_each(b, each), f'{each} on every element', f'`{d}` does not call {each} on every element', facts.loc(b))
+            rep.check(R, d + '|converts-each', converts_each(b, each), f'{each} on every element', f'`{d}` does not call {each} on every element unconditionally (an element that stays in its old form is not printable in the new container and is silently dropped)', facts.loc(b))
     b = facts.body('toml_edit::item::Item::into_array_of_tables')
     guards = [n.get('name') for n in walk(b['body']) if n.get('k') == 'mcall' and n.get('name') in ('is_empty', 'all', 'is_inline_table')]
     rep.check(R, 'Item::into_array_of_tables|guards', {'is_empty', 'all', 'is_inline_table'} <= set(guards), 'only non-empty arrays of inline tables convert',
